@@ -75,6 +75,7 @@ pub fn run_stress<S: MdkStorageProvider + Sync>(s: &S, u: &Universe, cfg: &Stres
         grp.name = name_of(0);
         s.save_group(grp).expect("init group");
     }
+    let _section = super::stall::section("mixed reads and writes (run_stress)");
     let all: Vec<Vec<Rec>> = std::thread::scope(|sc| {
         let hs: Vec<_> = (0..cfg.threads)
             .map(|t| {
@@ -212,7 +213,8 @@ pub fn run_stress<S: MdkStorageProvider + Sync>(s: &S, u: &Universe, cfg: &Stres
     report
 }
 
-/// Necessary conditions for linearizability of a register with uniquely tagged writes.
+/// Linearizability of one key (a register with uniquely tagged writes): specific necessary
+/// conditions first (they give the readable witnesses), then the complete zone test.
 fn check_register(key: &str, recs: &[Rec], cfg: &StressCfg, rep: &mut StressReport) {
     let writes: BTreeMap<u64, &Rec> = recs.iter().filter_map(|r| r.wrote.map(|v| (v, r))).collect();
     let reads: Vec<&Rec> = recs.iter().filter(|r| r.wrote.is_none()).collect();
@@ -263,6 +265,7 @@ fn check_register(key: &str, recs: &[Rec], cfg: &StressCfg, rep: &mut StressRepo
             rep.overlapping_pairs += 1;
         }
     }
+    zone_test(key, &writes, &reads, rep);
     // two sequential reads never go backwards
     let mut sorted: Vec<&&Rec> = reads.iter().collect();
     sorted.sort_by_key(|r| r.call);
@@ -281,6 +284,77 @@ fn check_register(key: &str, recs: &[Rec], cfg: &StressCfg, rep: &mut StressRepo
     }
 }
 
+/// Complete decision procedure for a register whose writes carry unique values (Gibbons & Korach,
+/// "Testing shared memories", 1997): the *cluster* of a value is its write plus the reads that returned
+/// it; its zone runs from the earliest return (`f`) to the latest call (`s`) in the cluster - a
+/// *forward* zone [f, s] if f < s (some operation of the cluster began after another had ended: the
+/// value was in the register throughout [f, s]), otherwise a *backward* zone [s, f]. The history is
+/// linearizable iff (1) no read returns before its write is called, (2) no two forward zones overlap,
+/// (3) no backward zone lies inside a forward zone. (1) is reported by the caller as
+/// `read-from-the-future`. The initial value is a write that returned before every stamp.
+fn zone_test(key: &str, writes: &BTreeMap<u64, &Rec>, reads: &[&Rec], rep: &mut StressReport) {
+    // value -> (min return, max call)
+    let mut cl: BTreeMap<u64, (u64, u64)> = BTreeMap::new();
+    cl.insert(0, (0, 0));
+    for (v, w) in writes {
+        if w.ok {
+            cl.insert(*v, (w.ret, w.call));
+        }
+    }
+    for r in reads {
+        let Some(v) = r.read else { continue };
+        if v >= u64::MAX - 3 {
+            continue;
+        }
+        if let Some(c) = cl.get_mut(&v) {
+            c.0 = c.0.min(r.ret);
+            c.1 = c.1.max(r.call);
+        }
+    }
+    let mut forward: Vec<(u64, u64, u64)> = cl.iter().filter(|(_, (f, s))| f < s).map(|(v, (f, s))| (*f, *s, *v)).collect();
+    forward.sort();
+    for w in forward.windows(2) {
+        if w[1].0 < w[0].1 {
+            rep.violations.push((
+                "not-linearizable-forward-zones-overlap".into(),
+                format!("{key}: value {:x} was observed over stamps {}..{} and value {:x} over {}..{}: each was in the register throughout its span, and the spans overlap", w[0].2, w[0].0, w[0].1, w[1].2, w[1].0, w[1].1),
+            ));
+            return;
+        }
+    }
+    for (v, (f, s)) in cl.iter().filter(|(_, (f, s))| f >= s) {
+        // backward zone [s, f]
+        if let Some(fz) = forward.iter().find(|fz| fz.0 < *s && *f < fz.1) {
+            rep.violations.push((
+                "not-linearizable-value-inside-another-values-span".into(),
+                format!("{key}: every operation on value {v:x} overlaps the instant window {s}..{f}, which lies strictly inside {}..{} during which value {:x} was in the register throughout", fz.0, fz.1, fz.2),
+            ));
+            return;
+        }
+    }
+}
+
+/// The checker checked: (a) two overlapping writes and three sequential reads that see v1, v2, v1
+/// (new-old inversion; every necessary condition above holds, only the zone test refutes it) must be
+/// rejected; (b) the same history with the reads seeing v1, v2, v2 is linearizable and must pass.
+pub fn checker_selftest() -> Result<(), String> {
+    let cfg = StressCfg { threads: 3, ops_per_thread: 0, yield_pct: 0, groups: 1 };
+    let rec = |thread: usize, call: u64, ret: u64, wrote: Option<u64>, read: Option<u64>| Rec { thread, key: "selftest/0".into(), call, ret, wrote, read, ok: true };
+    let (v1, v2) = (tag(1, 1), tag(2, 1));
+    let build = |third: u64| vec![rec(1, 1, 20, Some(v1), None), rec(2, 2, 21, Some(v2), None), rec(0, 3, 4, None, Some(v1)), rec(0, 5, 6, None, Some(v2)), rec(0, 7, 8, None, Some(third))];
+    let mut bad = StressReport::default();
+    check_register("selftest/0", &build(v1), &cfg, &mut bad);
+    if !bad.violations.iter().any(|(c, _)| c.starts_with("not-linearizable")) {
+        return Err(format!("the new-old inversion history was accepted: {:?}", bad.violations));
+    }
+    let mut good = StressReport::default();
+    check_register("selftest/0", &build(v2), &cfg, &mut good);
+    if !good.violations.is_empty() {
+        return Err(format!("a linearizable history was rejected: {:?}", good.violations));
+    }
+    Ok(())
+}
+
 /// Snapshot-cut workload: one writer bumps epoch -> secret -> relays to version v, v+1, ...;
 /// snapshotters run concurrently; every snapshot, restored later, must be a consistent cut.
 pub fn run_snapshot_cut<S: MdkStorageProvider + Sync>(s: &S, u: &Universe, versions: u64, snapshotters: usize, seed: u64) -> StressReport {
@@ -297,6 +371,7 @@ pub fn run_snapshot_cut<S: MdkStorageProvider + Sync>(s: &S, u: &Universe, versi
     s.save_group_exporter_secret(sec0).expect("init secret");
     s.replace_group_relays(&gid, relay_set(0)).expect("init relays");
     let done = AtomicBool::new(false);
+    let _section = super::stall::section("snapshots under a writer (run_snapshot_cut)");
     let taken: Vec<Vec<String>> = std::thread::scope(|sc| {
         let done = &done;
         let writer = sc.spawn(move || {
@@ -377,6 +452,7 @@ pub fn run_snapshot_cut<S: MdkStorageProvider + Sync>(s: &S, u: &Universe, versi
 /// carries one of them, that one resolves, the other one and the previous one do not.
 pub fn run_claims<S: MdkStorageProvider + Sync>(s: &S, u: &Universe, threads: usize, rounds: usize, seed: u64) -> StressReport {
     use std::sync::{Barrier, Mutex};
+    let _section = super::stall::section("concurrent claims of one nostr group id (run_claims)");
     let mut report = StressReport::default();
     let template = GroupSpec { g: 0, nid: 0, nid_of: None, name: 0, desc: 0, admins: 1, epoch: 1, state: 0, img: 0, last: None, su: 1 }.build(u);
     let gid_of = |t: usize| mdk_storage_traits::GroupId::from_slice(&[0xC0u8, t as u8, (seed & 0xff) as u8, 7, 7, 7, 7, 7]);
@@ -500,6 +576,7 @@ pub fn run_claims<S: MdkStorageProvider + Sync>(s: &S, u: &Universe, threads: us
 /// the exporter secret, a listing that succeeds): a rollback that empties the group and refills it
 /// in two steps shows up as a missing / empty read.
 pub fn run_rollback_readers<S: MdkStorageProvider + Sync>(s: &S, u: &Universe, iterations: usize, readers: usize, seed: u64) -> StressReport {
+    let _section = super::stall::section("snapshot + rollback under readers (run_rollback_readers)");
     let mut report = StressReport::default();
     let g = 1usize;
     let gid = u.gid(g);
